@@ -836,7 +836,14 @@ func allInjections() []injection {
 			return true
 		}},
 		{"U4 time zone", "user", func(g *cleanGen, c jwt.Claims) bool {
-			c.(*jwt.UserClaims).Locale = g.pick("Mars/Olympus", "not a zone", "America/Nowhere")
+			// unknown names, and names that differ from a zone the clean claims use (validated earlier in this
+			// process) only by case or a blank - whether those load is for the time-zone database to say
+			z := g.pick("Mars/Olympus", "not a zone", "America/Nowhere", "america/new_york", "AMERICA/NEW_YORK",
+				"europe/berlin", "utc ", " UTC", "America/New_york", "Europe/Berlin/")
+			if _, err := time.LoadLocation(z); err == nil {
+				return false // this database knows the name: not a violation here
+			}
+			c.(*jwt.UserClaims).Locale = z
 			return true
 		}},
 		{"U5 user issuer account", "user", func(g *cleanGen, c jwt.Claims) bool {
